@@ -1,7 +1,12 @@
-// VU-range (C14): crates/s3s/src/dto/range.rs :: Range::check, verbatim, against RFC 9110 section 14.1.2.
+// VU-range (C14): crates/s3s/src/dto/range.rs :: Range::check, verbatim, against RFC 9110 section 14.1.2; Range::parse,
+// parse_u64_full, parse_u64_once against the RFC 9110 14.1.1 grammar of a single byte range (R-slicepat on the two slice patterns).
 #![allow(dead_code, unused)]
+#![feature(pattern)]
+#![verifier::allow(undeclared_external_trait)]
 use vstd::prelude::*;
+use vstd::string::StringSliceAdditionalSpecFns;
 use core::ops;
+use core::str::pattern::Pattern;
 verus! {
 
 // @canary-decls
@@ -34,6 +39,85 @@ pub open spec fn rfc_hi(r: Range, len: int) -> int {
         Range::Int { first, last: Some(last) } => if last < len - 1 { last + 1 } else { len },
         Range::Suffix { length } => len,
     }
+}
+
+// ---- Range::parse ------------------------------------------------------------------------------------------------------------
+pub uninterp spec fn sp_strip_prefix<P>(s: Seq<char>, p: P) -> Option<Seq<char>>;
+pub assume_specification<'a, P: Pattern>[ str::strip_prefix::<P> ](s: &'a str, p: P) -> (r: Option<&'a str>)
+    ensures r matches Some(t) ==> sp_strip_prefix(s@, p) == Some(t@), r is None ==> sp_strip_prefix(s@, p) is None;
+#[verifier::external_body]
+pub proof fn axiom_strip_prefix_str(s: Seq<char>, p: &str)
+    ensures sp_strip_prefix(s, p) == (if p@.is_prefix_of(s) { Some(s.skip(p@.len() as int)) } else { None::<Seq<char>> })
+{}
+/// the UTF-8 bytes of a text (uninterpreted); the axiom says `str::as_bytes` is that function of the text
+pub uninterp spec fn utf8(s: Seq<char>) -> Seq<u8>;
+#[verifier::external_body]
+pub proof fn axiom_bytes_of_text() ensures forall|t: &str| #[trigger] t.spec_bytes() == utf8(t@) {}
+
+pub open spec fn is_digit(b: u8) -> bool { 48 <= b <= 57 }
+/// length of the longest prefix of decimal digits
+pub open spec fn dpl(s: Seq<u8>) -> int
+    decreases s.len()
+{
+    if s.len() == 0 || !is_digit(s[0]) { 0 } else { 1 + dpl(s.skip(1)) }
+}
+/// value of a sequence of decimal digits (most significant first)
+pub open spec fn dec(s: Seq<u8>) -> nat
+    decreases s.len()
+{
+    if s.len() == 0 { 0 } else { dec(s.drop_last()) * 10 + (s.last() - 48) as nat }
+}
+pub open spec fn all_digits(s: Seq<u8>) -> bool { dpl(s) == s.len() }
+pub proof fn lemma_dpl_bounds(s: Seq<u8>)
+    ensures 0 <= dpl(s) <= s.len()
+    decreases s.len()
+{
+    if s.len() > 0 && is_digit(s[0]) { lemma_dpl_bounds(s.skip(1)); }
+}
+
+/// atoi::FromRadix10Checked for u64 (trusted): consumes the longest prefix of decimal digits (no sign), reports its length, and
+/// its value unless that overflows
+pub trait FromRadix10Checked: Sized {
+    fn from_radix_10_checked(s: &[u8]) -> (r: (Option<Self>, usize));
+}
+impl FromRadix10Checked for u64 {
+    #[verifier::external_body]
+    fn from_radix_10_checked(s: &[u8]) -> (r: (Option<u64>, usize))
+        ensures
+            r.1 == dpl(s@),
+            r.0 matches Some(x) ==> x == dec(s@.take(dpl(s@))),
+            r.0 is None <==> dec(s@.take(dpl(s@))) > u64::MAX,
+    { unimplemented!() }
+}
+
+/// RFC 9110 14.1.1 for one range of the `bytes` unit, positions below 2^63 (the property's bound):
+///   suffix-range = "-" 1*DIGIT          int-range = 1*DIGIT "-" [ 1*DIGIT ]   with first-pos <= last-pos
+pub open spec fn rfc_range(r: Seq<u8>) -> Option<Range> {
+    if r.len() > 0 && r[0] == 45 {
+        let t = r.skip(1);
+        if t.len() >= 1 && all_digits(t) && dec(t) <= u64::MAX { Some(Range::Suffix { length: dec(t) as u64 }) } else { None }
+    } else {
+        let k = dpl(r);
+        let first = dec(r.take(k));
+        let rest = r.skip(k);
+        if k == 0 || first > i64::MAX || rest.len() == 0 || rest[0] != 45 { None }
+        else {
+            let u = rest.skip(1);
+            if u.len() == 0 { Some(Range::Int { first: first as u64, last: None }) }
+            else if all_digits(u) && dec(u) <= i64::MAX && first <= dec(u) { Some(Range::Int { first: first as u64, last: Some(dec(u) as u64) }) }
+            else { None }
+        }
+    }
+}
+pub open spec fn rfc_header(h: Seq<char>) -> Option<Range> {
+    if "bytes="@.is_prefix_of(h) { rfc_range(utf8(h.skip("bytes="@.len() as int))) } else { None }
+}
+
+//@@ extract T_ParseRangeError file=crates/s3s/src/dto/range.rs item="struct ParseRangeError" rewrites=attr
+//@@ extract parse_u64_full file=crates/s3s/src/dto/range.rs item="fn parse_u64_full" rewrites=attr,ret
+//@@ extract parse_u64_once file=crates/s3s/src/dto/range.rs item="fn parse_u64_once" rewrites=attr,ret
+impl Range {
+//@@ extract parse file=crates/s3s/src/dto/range.rs item="impl Range/fn parse" rewrites=attr,ret,slicepat
 }
 
 impl Range {
